@@ -356,22 +356,7 @@ static void do_op(struct slot *s, char **tok, int nt, long *retp, int *errp) {
     hwloc_bitmap_t st = set_from_hex(tok[1]);
     ret = hwloc_topology_restrict(topo, st, strtoul(tok[2], NULL, 10)); err = errno; hwloc_bitmap_free(st);
   } else if (!strcmp(op, "group")) {
-    /* KNOWN DEFECT outside C12 (class excluded unless VERIF_DUP_GROUP_REPLACE=1): a Group (or other object) inserted with the
-     * same sets as an existing mergeable Group may REPLACE that Group in place (hwloc_replace_linked_object), which changes the
-     * gp_index of a linked object while memattr initiators / distances keep the old gp_index and their caches stay "valid":
-     * the original keeps reporting the initiator through the stale cached pointer, a copy (caches rebuilt from gp_index) loses it.
-     * The call is skipped (ret -98) when an existing Group has the cpuset or the nodeset of the new one. */
-    int skip = 0;
-    if (!getenv("VERIF_DUP_GROUP_REPLACE")) {
-      hwloc_bitmap_t c = set_from_hex(tok[1]), n = set_from_hex(tok[2]), cc = hwloc_bitmap_alloc();
-      if (c) hwloc_bitmap_copy(cc, c);
-      else if (n) { hwloc_obj_t nd = NULL; while ((nd = hwloc_get_next_obj_by_type(topo, HWLOC_OBJ_NUMANODE, nd)) != NULL) if (hwloc_bitmap_isset(n, nd->os_index)) hwloc_bitmap_or(cc, cc, nd->cpuset); }
-      for (unsigned i = 0; i < s->nobjs; i++) { hwloc_obj_t o = s->objs[i];
-        if (o->type == HWLOC_OBJ_GROUP && (hwloc_bitmap_isequal(o->cpuset, cc) || hwloc_bitmap_isequal(o->complete_cpuset, cc) || (n && hwloc_bitmap_isequal(o->nodeset, n)))) skip = 1; }
-      hwloc_bitmap_free(c); hwloc_bitmap_free(n); hwloc_bitmap_free(cc);
-    }
-    hwloc_obj_t g = skip ? NULL : hwloc_topology_alloc_group_object(topo);
-    if (skip) { ret = -98; errno = 0; }
+    hwloc_obj_t g = hwloc_topology_alloc_group_object(topo);
     if (g) {
       hwloc_bitmap_t c = set_from_hex(tok[1]), n = set_from_hex(tok[2]);
       if (c) g->cpuset = c;
@@ -690,15 +675,6 @@ static void gen_op(char *line, size_t cap, struct slot *s, const char *sn) {
   hwloc_obj_t root = hwloc_get_root_obj(topo);
   unsigned id = rng_below(s->nobjs);
   gen_counter++;
-  /* KNOWN DEFECT outside C12 (excluded unless VERIF_DUP_FLAGGED_ATTRS=1): hwloc_topology_restrict() skips the invalidation of the
-   * distances / memattrs caches when the topology has NO_DISTANCES / NO_MEMATTRS, although the user can still add distances /
-   * memattr values to such a topology: the cached object pointers then dangle (use-after-free in hwloc_memattr_get_initiators,
-   * hwloc_distances_get).  So no user distances / memattr values are generated on topologies carrying the respective flag. */
-  if (!getenv("VERIF_DUP_FLAGGED_ATTRS")) {
-    unsigned long tf = hwloc_topology_get_flags(topo);
-    if ((tf & HWLOC_TOPOLOGY_FLAG_NO_MEMATTRS) && r >= 85 && r < 94) r = 95;
-    if ((tf & HWLOC_TOPOLOGY_FLAG_NO_DISTANCES) && r >= 68 && r < 81) r = 95;
-  }
   if (r < 8) {
     static const unsigned long fl[] = {1, 1, 4, 4, 4, 4, 2, 0, 3, 8};
     unsigned long f = fl[rng_below(10)];
